@@ -1,0 +1,50 @@
+//go:build verif
+
+// Verification hook (build tag "verif"): exported aliases of unexported client internals.
+package dclient
+
+import (
+	"context"
+	"net"
+	"time"
+
+	vy "git.sr.ht/~adrian-blx/psa-dhcp/lib/client/verify"
+	"git.sr.ht/~adrian-blx/psa-dhcp/lib/dhcpmsg"
+	"git.sr.ht/~adrian-blx/psa-dhcp/lib/libif"
+)
+
+// Dclient is the exported name of the client automaton type.
+type Dclient = dclient
+
+var ErrWasNack = errWasNack
+
+func VerifCatchReply(ctx context.Context, iface *net.Interface, vrfy func(dhcpmsg.Message, dhcpmsg.DecodedOptions) vy.State) (dhcpmsg.Message, dhcpmsg.DecodedOptions, error) {
+	return catchReply(ctx, iface, vrfy)
+}
+
+func VerifSendMessage(ctx context.Context, iface *net.Interface, sender func() ([]byte, net.IP, net.IP)) error {
+	return sendMessage(ctx, iface, sender)
+}
+
+// VerifBuildNetconfig runs buildNetconfig on a client whose last accepted reply is (m, o).
+func VerifBuildNetconfig(iface *net.Interface, m dhcpmsg.Message, o dhcpmsg.DecodedOptions) libif.Ifconfig {
+	return dclient{iface: iface, lastMsg: m, lastOpts: o}.buildNetconfig()
+}
+
+func (dx *dclient) VerifState() int { return dx.state }
+
+func (dx *dclient) VerifDeadlines() (t1, t2, tx time.Time) {
+	return dx.boundDeadlines.t1, dx.boundDeadlines.t2, dx.boundDeadlines.tx
+}
+
+// State numbers, in declaration order.
+const (
+	VerifStatePurgeInterface = statePurgeInterface
+	VerifStateDiscovering    = stateDiscovering
+	VerifStateSelecting      = stateSelecting
+	VerifStateArpCheck       = stateArpCheck
+	VerifStateIfconfig       = stateIfconfig
+	VerifStateBound          = stateBound
+	VerifStateRenewing       = stateRenewing
+	VerifStateRebinding      = stateRebinding
+)
